@@ -84,7 +84,28 @@ TxValidBlock(b) ==
      /\ \A i \in 2..Len(Txs(b)) : ~IsCoinbase(Txs(b)[i])
      /\ FoldLeft(step, start, Txs(b)).ok
 
-UniverseValid == \A b \in AllBlocks : TxValidBlock(b)
+\* the ledgers of all blocks in one pass (block ids are assigned in creation order: a parent has a
+\* smaller id than its children), used to evaluate the domain condition on large universes
+LedgerMap ==
+  FoldLeft(LAMBDA L, b : [L EXCEPT ![b] = ApplyBlock(IF Par(b) = 0 THEN {} ELSE L[Par(b)], b, 0)],
+           [b \in AllBlocks |-> {}], [i \in 1..NumBlocks |-> i])
+
+TxValidBlockFrom(b, parentLedger) ==
+  LET step(acc, t) ==
+        IF ~acc.ok THEN acc
+        ELSE LET have == {<<e.t, e.j>> : e \in acc.L}
+             IN IF SpentBy(t) \subseteq have /\ Cardinality(SpentBy(t)) = Len(Ins(t))
+                THEN [ok |-> TRUE, L |-> ApplyTx(acc.L, t, 0)]
+                ELSE [ok |-> FALSE, L |-> acc.L]
+  IN /\ Len(Txs(b)) >= 1
+     /\ IsCoinbase(Txs(b)[1])
+     /\ \A i \in 2..Len(Txs(b)) : ~IsCoinbase(Txs(b)[i])
+     /\ FoldLeft(step, [ok |-> TRUE, L |-> parentLedger], Txs(b)).ok
+
+UniverseValid ==
+  /\ \A b \in AllBlocks : Par(b) < b
+  /\ LET LM == LedgerMap
+     IN \A b \in AllBlocks : TxValidBlockFrom(b, IF Par(b) = 0 THEN {} ELSE LM[Par(b)])
 
 (***************************************************************************)
 (* Fee rates (millisatoshi per virtual byte, rounded down) of the          *)
